@@ -56,6 +56,36 @@ func runC02(c *Ctx) {
 	}
 	isChildAddr := func(t *Term) bool { return isFieldAddr(t, a.nLeft, nil) || isFieldAddr(t, a.nRight, nil) }
 
+	// ---- height-store: whatever is written into a node's cached height is that same node's computed height
+	R.Rule("height-store", "every store to the cached height of an existing node X writes calcHeight(X) - X's own height, not another node's, not a constant", 5)
+	for _, fi := range nodeFuncs {
+		ok, why := true, ""
+		n := 0
+		for _, p := range paths[fi] {
+			for i := range p.Events {
+				e := &p.Events[i]
+				if e.Kind != "store" || !isFieldAddr(e.Addr, a.nHeight, nil) {
+					continue
+				}
+				X := e.Addr.Args[0]
+				if X.Op == "alloc" {
+					continue // a node made here: fresh-node-height
+				}
+				n++
+				v := e.Val
+				if !(v.Op == "call" && strings.HasSuffix(v.Sym, "(*node).calcHeight") && len(v.Args) == 1 && v.Args[0].Key() == X.Key()) {
+					ok, why = false, fmt.Sprintf("the height of %s is set to %s, which is not calcHeight of that node", X, v)
+				}
+			}
+		}
+		if n > 0 {
+			o := R.Decide(ok, "height-store", fi.Name, "stores", c.pos(fi), "each height store is X.height = X.calcHeight()", why)
+			if !ok {
+				o.Breaks = "a node's cached height is wrong: later balance decisions above it are made on a false height"
+			}
+		}
+	}
+
 	// ---- classify rotations structurally
 	// kind "L": returns the receiver's right child as new root (rotate left); "R": mirror
 	kind := map[*FuncInfo]string{}
@@ -659,6 +689,40 @@ func runC02(c *Ctx) {
 				continue
 			}
 			if outer == "" {
+				// balanced: both leans excluded by tests of balance(n) - or the node's own (refreshed) height is below two,
+				// which leaves no room for subtrees that differ by two
+				notR, notL, isBal, low := false, false, false, false
+				for _, cd := range p.Conds {
+					rl := cd.Rel()
+					if rl.B != nil && rl.B.Op == "const" && rl.A.Op == "call" && strings.HasSuffix(rl.A.Sym, "(*node).balance") && rl.A.Args[0].Key() == recv.Key() {
+						lean := leanConst[rl.B.Sym]
+						switch {
+						case rl.Op == "!=" && lean == "R":
+							notR = true
+						case rl.Op == "!=" && lean == "L":
+							notL = true
+						case rl.Op == "==" && lean != "R" && lean != "L":
+							isBal = true
+						}
+					}
+					if pl, k, isInt := rl.IntNorm(); isInt {
+						for _, at := range pl.Atoms {
+							if isFieldLoad(at, a.nHeight, recv) {
+								h := ToPoly(at)
+								if k == ">" && (pl.Equal(polyConst(2).Add(h, -1)) || pl.Equal(polyConst(1).Add(h, -1))) {
+									low = true // height < 2, height < 1
+								}
+								if k == "=" && (pl.Equal(canonSign(h)) || pl.Equal(canonSign(h.Add(polyConst(1), -1)))) {
+									low = true // height == 0, height == 1
+								}
+							}
+						}
+					}
+				}
+				if !(notR && notL) && !isBal && !low {
+					ok, why = false, "a path ("+p.CondString()+") leaves the node as it is without having found it balanced"
+					continue
+				}
 				outer = "0"
 			}
 			// inner: strict comparison between the heavy child's two heights
